@@ -184,6 +184,9 @@ def required_missing(P, m, tier):
                 continue  # contract on an optional internal helper that no longer exists
             if m["probes"].get(name) == "unattached":
                 continue  # coverage counter tied to a source line that no longer exists
+            alt = getattr(P, "OPTIONAL_IF", {}).get(name)
+            if alt and allc.get(alt, 0) > 0:
+                continue  # an additional mechanism-level monitor whose source anchor is gone; the boundary oracle decides
             missing.append(name)
     for k, v in m["probes"].items():
         if v == "unattached" and k in getattr(P, "REQUIRED_PROBES", ()):
